@@ -45,6 +45,7 @@ fn main() {
                     println!("  {} class {} ({}): {}", l, k, c.len(), c.join(" "));
                 }
             }
+            println!("  {} words harvested from the tree's source: {:?}", l, v.srcdict);
             println!("{}: {} ordinary words ({} everyday words kept), {} number words, {} linking words; dropped as number/linking/known: {:?}", l, v.fillers.len(), v.common.len(), v.number_words.len(), v.linking.len(), dropped);
         }
         return;
